@@ -132,13 +132,47 @@ class Builder:
 
     # -- values ------------------------------------------------------------------------------
     def lit_or_const(self, v):
-        """A literal, or a constant that has exactly this value."""
+        """A literal, a constant that has exactly this value, or (p_expr_operand) an arithmetic expression that evaluates to it."""
         if self.chance(self.p['p_const_operand']):
             names = [n for n, cv in self.cvals.items() if cv == v and not isinstance(cv, tuple)]
             if names:
                 self.tags.add('const_operand')
                 return ir.CRef(self.pick(names))
+        if self.chance(self.p.get('p_expr_operand', 0.06)):
+            self.tags.add('expr_operand')
+            return self.expr_for(v)
         return ir.Lit(v)
+
+    def expr_for(self, v):
+        """An arithmetic expression (documented: "basic arithmetic operations" over integers and constants) with value v.  The first
+        token is often a bare decimal 0..31 - a spelling that is also a register name."""
+        k = self.i(0, 7)
+        a = self.pick([0, 1, 2, 4, 5, 8, 10, 16, 31, 3, 7]) if self.chance(0.7) else self.i(-64, 4096)
+        names = [n for n, cv in self.cvals.items() if not isinstance(cv, tuple) and abs(cv) < (1 << 40)]
+        if k == 0:
+            return ir.Bin('+', ir.Lit(a), ir.Lit(v - a))
+        if k == 1:
+            return ir.Bin('-', ir.Lit(a), ir.Lit(a - v))
+        if k == 2:
+            for m in (16, 8, 4, 3, 2):
+                if v % m == 0 and v != 0:
+                    return ir.Bin('*', ir.Lit(m), ir.Lit(v // m)) if self.chance(0.5) else ir.Bin('*', ir.Lit(v // m), ir.Lit(m))
+            return ir.Bin('+', ir.Lit(a), ir.Lit(v - a))
+        if k == 3:
+            for sh in (4, 3, 2, 1):
+                if v % (1 << sh) == 0 and v != 0:
+                    return ir.Bin('<<', ir.Lit(v >> sh), ir.Lit(sh))
+            return ir.Bin('|', ir.Lit(v & ~1), ir.Lit(v & 1)) if v >= 0 else ir.Un('-', ir.Lit(-v))
+        if k == 4:
+            # (parentheses not at the very start: loads, stores and jalr take a leading parenthesis for the imm(reg) syntax)
+            return ir.Bin('-', ir.Lit(v + a), ir.Paren(ir.Bin('*', ir.Lit(1), ir.Lit(a))))
+        if k == 5 and names:
+            n = self.pick(names)
+            self.tags.add('const_operand')
+            return ir.Bin('+', ir.CRef(n), ir.Lit(v - self.cvals[n])) if self.chance(0.5) else ir.Bin('-', ir.Lit(v + self.cvals[n]), ir.CRef(n))
+        if k == 6:
+            return ir.Un('~', ir.Lit(~v)) if self.chance(0.5) else ir.Un('-', ir.Lit(-v))
+        return ir.Bin('+', ir.Bin('*', ir.Lit(a), ir.Lit(2)), ir.Lit(v - 2 * a))
 
     def label(self):
         return self.pick(self.labels)
@@ -442,7 +476,7 @@ class Builder:
                 v = self.edgy(lo, hi, mult)
                 if v == 0 and mn in ('c.addi', 'c.lui', 'c.addi16sp', 'c.addi4spn'):
                     v = mult
-                ops[f] = self.lit_or_const(v)
+                ops[f] = self.expr_for(v) if self.chance(0.2) else self.lit_or_const(v)
             else:
                 prime = mn in ('c.addi4spn', 'c.lw', 'c.sw', 'c.srli', 'c.srai', 'c.andi', 'c.sub', 'c.xor', 'c.or', 'c.and')
                 if prime:
@@ -536,7 +570,7 @@ class Builder:
             return ir.Align(self.pick([2, 4, 4, 8, 16]))
         if self.chance(self.p.get('p_big_align', 0.0) * 2):
             return ir.Align(self.pick([1024, 2048, 4096, 4096, 8192]))
-        return ir.Align(self.pick([1, 2, 3, 4, 5, 6, 7, 8, 12, 16, 32, 64, 100, 128, 255, 256, 1000, 4096])
+        return ir.Align(self.pick([1, 1, 1, 2, 3, 4, 5, 6, 7, 8, 12, 16, 32, 64, 100, 128, 255, 256, 1000, 4096])
                         if self.chance(0.6) else self.i(1, 64))
 
     # -- transfers ---------------------------------------------------------------------------
